@@ -235,7 +235,11 @@ func (fv *FuncVC) execInstr(in ssa.Instruction) {
 			if !x.Blocking {
 				lo = -1
 			}
-			fv.assume(fmt.Sprintf("(and (<= %d %s) (<= %s %d))", lo, r.Tuple[0].T, r.Tuple[0].T, hi))
+			los := fmt.Sprint(lo)
+			if lo < 0 {
+				los = fmt.Sprintf("(- %d)", -lo) // SMT-LIB has no negative literals (cvc5 rejects "-1")
+			}
+			fv.assume(fmt.Sprintf("(and (<= %s %s) (<= %s %d))", los, r.Tuple[0].T, r.Tuple[0].T, hi))
 		}
 	case *ssa.Range:
 		fv.execRange(x)
@@ -823,6 +827,14 @@ func (fv *FuncVC) stringToBytes(v *Val, to types.Type) *Val {
 	arr := fv.fresh("s2b", "(Array Int Int)")
 	fv.emit(fmt.Sprintf("(assert (forall ((i Int)) (! (=> (and (<= 0 i) (< i (slen %s))) (= (select %s i) (sat %s i))) :pattern ((select %s i)))))", v.T, arr, v.T, arr))
 	fv.heapSet(hn, hs, "(store "+h+" "+ref+" "+arr+")")
+	if gt, ok := fv.g.spec.Ghosts["bsrc"]; ok {
+		// ghost bsrc[a]: the string the fresh byte array a was converted from (used by the assumed contract of
+		// hash.Hash.Write for the idiom h.Write([]byte(s)); meaningful while a is not written to)
+		if t := fv.g.resolveType(gt); t != nil {
+			gs := fv.sortOf(t)
+			fv.heapSet("GH$bsrc", gs, "(store "+fv.heapGet("GH$bsrc", gs)+" "+ref+" "+v.T+")")
+		}
+	}
 	return &Val{T: fmt.Sprintf("(mk-slice %s 0 (slen %s) (slen %s))", ref, v.T, v.T), Typ: to}
 }
 
@@ -977,6 +989,13 @@ func (fv *FuncVC) execMakeSlice(x *ssa.MakeSlice) {
 	hn, hs := fv.g.elemHeap(et)
 	h := fv.heapGet(hn, hs)
 	zero := fmt.Sprintf("((as const (Array Int %s)) %s)", fv.sortOf(et), fv.g.sorts.zero(et))
+	if zt := fv.g.sorts.zero(et); strings.Contains(zt, "str!") {
+		// cvc5 accepts only a value under 'as const'; the zero of a string-bearing element type mentions the
+		// uninterpreted constant str!empty, so the zeroed array is a fresh constant with a triggered axiom
+		za := fv.fresh("zarr", fmt.Sprintf("(Array Int %s)", fv.sortOf(et)))
+		fv.emit(fmt.Sprintf("(assert (forall ((zi Int)) (! (= (select %s zi) %s) :pattern ((select %s zi)))))", za, zt, za))
+		zero = za
+	}
 	fv.heapSet(hn, hs, "(store "+h+" "+ref+" "+zero+")")
 	fv.setReg(x, &Val{T: fv.name("mk", "Slice", fmt.Sprintf("(mk-slice %s 0 %s %s)", ref, ln.T, cp.T)), Typ: x.Type()})
 }
